@@ -8,7 +8,7 @@ SPEC = dict(
           "p+q, 1-3 levels); the observer reads the tree with GETDATA /*, /*/*, ...; then 40 user Messages (7 what codes outside the command range, "
           "unique id) in bursts of 1-8 from random senders with 0-5 !SnKy patterns -- literal, escaped, over-escaped, *, ?, [..], [a-c], (a|b), comma "
           "lists, ~, ~(..), <n-m> <n-> <-n> <a,b-c>, at node, session and host level, absolute or with the implicit /*/*, equal and different depths, "
-          "pairs/triples constructed to 'conspire' on a victim node -- optional !SnFl filters (one per key, an empty Message for none; or fewer than "
+          "pairs/triples constructed to 'conspire' on a victim node, in 1 of 8 pattern lists a pattern with a clause that does not compile (unbalanced ( or [, reversed class range, ...: 17 texts refused by both the reference parser and StringMatcher::SetPattern) first / in the middle / last / alone -- optional !SnFl filters (one per key, an empty Message for none; or fewer than "
           "keys), a forged `session` field in about half of them (10 shapes, 5 of them not string fields, 2 multi-valued strings); interleaved in-stream SETPARAMETERS/REMOVEPARAMETERS of reflect-to-self and of the default "
           "route (!SnKy + !SnFl), settled changes of !G2N / !N2G, SETDATA/REMOVEDATA mutations with a fresh observer read. After every burst each "
           "session's receive queue is compared with the expected recipient sets computed from the OBSERVER's tree with the independent wildcard "
@@ -21,6 +21,7 @@ SPEC = dict(
                  'refwild.h (written from the StringMatcher documentation) is the wildcard reference; a numeric-range clause does not match a name that is not all digits',
                  'filter reference: Int32 compare, ValueExists, WhatCode range, NodeName, String equality, And/Or, semantics from the QueryFilter.h comments',
                  'the !G2N / !N2G flags are switched off by setting and then removing the parameter (a bare REMOVEPARAMETERS of a never-set default flag is a no-op in the server: counted, not judged)',
+                 'a pattern with a clause that fails to compile selects nothing and every other pattern of the same list (Message keys, default route, GETDATA, REMOVEDATA) selects what it selects alone; candidates that muscle compiles after all are left out and counted',
                  'fewer filters than keys: the last filter is applied to the surplus keys by the code, REMOVEDATA\'s text says no filter: receivers on which the two readings differ are excluded and counted',
                  'a node visited twice by one traversal is reported (DoTraversal documents "the number of times cb was called" for nodes "encountered")',
                  'g++ 12 ASan/UBSan/LSan and valgrind memcheck report what they claim to report'],
@@ -29,7 +30,7 @@ SPEC = dict(
         Leg('route', 'h_route', 'asan', opts={'mode': 'route', 'msgs': '40', 'trav': '70'}, quick=1600, thorough=40000, workers=16, leaks=True),
         Leg('memcheck', 'h_route', 'plain', opts={'mode': 'route', 'msgs': '40', 'trav': '70'}, quick=16, thorough=320, workers=16, valgrind=True),
     ],
-    min_stats={'regress': {'regress_routed_messages': 25, 'regress_traversals': 1, 'regress_forgeries_checked': 2},
+    min_stats={'regress': {'regress_routed_messages': 25, 'regress_traversals': 1, 'regress_forgeries_checked': 2, 'regress_malformed_scenarios': 10},
                'route': {'routed_messages': 50000, 'receiver_checks': 300000, 'deliveries_expected': 80000, 'bursts': 8000,
                          'msgs_with_2_patterns': 9000, 'msgs_with_3_patterns': 6000, 'msgs_with_4_patterns': 3500, 'msgs_with_5plus_patterns': 1500,
                          'multi_msgs_with_equal_depth_patterns': 14000, 'multi_msgs_two_depths': 10000, 'multi_msgs_three_plus_depths': 3000,
@@ -38,6 +39,10 @@ SPEC = dict(
                          'param_default_route_set': 2000, 'param_default_route_removed': 250, 'param_default_route_filters_removed': 60,
                          'param_self_set': 900, 'param_self_removed': 400, 'param_removed_N2G': 300, 'param_removed_G2N': 150,
                          'forged_session_fields': 20000, 'forged_session_fields_nonstring': 8000, 'forged_session_fields_multi_valued': 3000, 'session_fields_checked': 30000, 'tree_mutations': 600, 'parameter_tables_checked': 5000,
+                         'msgs_with_malformed_pattern_before_valid': 1500, 'msgs_with_malformed_pattern_before_valid_and_receivers': 800, 'msgs_with_malformed_pattern_last': 800,
+                         'default_routes_with_malformed_pattern': 300, 'default_routes_with_malformed_pattern_before_valid': 200,
+                         'default_route_deliveries_expected_behind_malformed': 150, 'tree_reads_with_malformed_key_before_valid': 400,
+                         'traversals_with_malformed_pattern': 6000,
                          'traversal_comparisons': 100000, 'traversal_nodes_visited': 150000, 'traversals_direct_lookup_at_every_level': 8000,
                          'traversals_iterated_at_every_level': 20000, 'traversals_mixing_lookup_and_iteration': 30000,
                          'traversals_with_lookup_level_and_visits': 20000, 'traversals_with_filters': 12000, 'traversals_with_several_patterns': 40000,
